@@ -9,8 +9,14 @@ What is proved here is the run-loop part of the property: the loop never blocks 
 at most one output, keeps the error buffer within the capacity read from the source, and reports "no more outputs"
 exactly once.  That `Execute` itself returns (the providers deliver their callbacks, `terminateAllSteps` returns) is
 validated on generated histories against the real code, not proved: see DESIGN.md, C01, "partial".
+
+(f)–(h) are what the repair of finding F11 achieves (`markRemainingStagesUnresolvable`, called when a step reports its
+completion): the stages a completed step did not go through are declared impossible at once, so nothing keeps waiting
+for them until unrelated steps end.
 -/
 import Arca.Proofs.LoopInv
+import Arca.Proofs.LoopSettle
+import Arca.Proofs.LoopFinishedCex
 import Arca.Gen.Consts
 
 namespace Arca.Props.C01
@@ -48,6 +54,93 @@ theorem dead_only_by_panic (P : Prepared) (fns : Fns) (ord : Order) (s : LoopSta
     ∃ a ∈ (react P fns ord s e).2, a.isPanic = true :=
   react_dead_only_by_panic P fns ord s e hs hd
 
+
+/-! ### promptness after a step completes (repair of finding F11) -/
+
+/--
+(f) `completed_step_settles_all_its_stages`.  After a legal completion callback of step `step` has been processed —
+in any state reachable by legal callbacks (`LoopDagInv`, `LoopSafeInv`, `FinConv`, alive) — the loop is still alive
+and every stage node and every declared stage-output node of `step` is resolved or unresolvable: none is left waiting
+(`StepSettled`, spelled out in `stepSettled_iff`).  `EventReports` = the completed stage, if it declares outputs, is
+reported with one of them (both providers do).
+-/
+theorem completed_step_settles_all_its_stages (P : Prepared) (fns : Fns) (ord : Order) (hord : OrdOK ord)
+    (hnd : OrdNodup ord) (hP : P.WF2) (s : LoopState) (h : LoopDagInv P s) (hc : LoopSafeInv P s)
+    (hd : s.dead = false) (hfc : FinConv P s) (step prev : String) (out : Option (String × Val)) (busy : Bool)
+    (hl : LegalEvent P s (.stepComplete step prev out busy)) (hr : EventReports P (.stepComplete step prev out busy)) :
+    (react P fns ord s (.stepComplete step prev out busy)).1.dead = false ∧
+    StepSettled P (react P fns ord s (.stepComplete step prev out busy)).1.dag step := by
+  refine ⟨?_, (react_settle P fns ord hord hnd hP s _ h hc hd hfc hl hr).2 step prev out busy rfl⟩
+  obtain ⟨hnp, _⟩ := react_legal_no_panic P fns ord hord hnd hP s _ h hc hl
+  cases hdd : (react P fns ord s (.stepComplete step prev out busy)).1.dead with
+  | false => rfl
+  | true =>
+    obtain ⟨a, ha, hp⟩ := react_dead_only_by_panic P fns ord s _ hd hdd
+    rw [hnp a ha] at hp; cases hp
+
+/-- what `StepSettled` says -/
+theorem stepSettled_iff (P : Prepared) (g : Graph String) (step : String) :
+    StepSettled P g step ↔ ∀ stage, P.declares step stage →
+      ¬ statusIs g (stageNodeId step stage) St.waiting ∧
+      ∀ o ∈ P.outputsOf step stage, ¬ statusIs g (outputNodeId step stage o) St.waiting := Iff.rfl
+
+/--
+(g) `completed_steps_stay_settled`.  Along every legal history from the initial state, every step whose completion
+callback was processed is settled in the final state, and the loop is alive.
+-/
+theorem completed_steps_stay_settled (P : Prepared) (fns : Fns) (ord : Order) (hord : OrdOK ord) (hnd : OrdNodup ord)
+    (hP : P.WF2) (h : List Event) (hl : LegalHistory P fns ord (LoopState.init P) h)
+    (hr : ∀ e ∈ h, EventReports P e) (step : String)
+    (hc : ∃ prev out busy, Event.stepComplete step prev out busy ∈ h) :
+    (run P fns ord h).1.dead = false ∧ StepSettled P (run P fns ord h).1.dag step :=
+  ⟨(legal_history_never_panics P fns ord hord hnd hP h hl).2,
+   (runFrom_settle P fns ord hord hnd hP h _ (init_dag_inv P hP.wf) (init_safe_inv P hP.wf) rfl (init_fin_conv P) hl hr).2
+     step hc⟩
+
+/--
+(h) `all_steps_completed_nothing_waits_for_a_step`.  If every step of the workflow has completed (the completion
+callback of every step that declares a stage is in the legal history), then in the final state
+1. the loop is alive and every step node (stage node or declared stage-output node of any step) is settled;
+2. a node all of whose dependencies are step nodes has NO outstanding dependency left (`out = []`): nothing keeps it
+   waiting for a step;
+3. a node with a required (`and`) dependency on a failed (unresolvable) step node is itself unresolvable: consumers of
+   a stage the step did not go through fail at once.
+
+Precisely what this covers and what it does not: it is a statement about the dependency graph (statuses and
+outstanding-dependency lists).  It does NOT prove that a node without outstanding dependencies has already been taken
+from the ready set and processed (group node resolved, output produced / "no more outputs" reported): that is the
+ready-set bookkeeping of `notifySteps` (`PopReadyNodes` in the same reaction), validated on the four F11 shapes and on
+generated workflows against the real engine by the `prompt` and `engine` streams of this property, and illustrated by
+the executable example `demoF_prompt` below.
+-/
+theorem all_steps_completed_nothing_waits_for_a_step (P : Prepared) (fns : Fns) (ord : Order) (hord : OrdOK ord)
+    (hnd : OrdNodup ord) (hP : P.WF2) (h : List Event) (hl : LegalHistory P fns ord (LoopState.init P) h)
+    (hr : ∀ e ∈ h, EventReports P e)
+    (hall : ∀ step stage, P.declares step stage → ∃ prev out busy, Event.stepComplete step prev out busy ∈ h) :
+    (run P fns ord h).1.dead = false ∧
+    (∀ id, IsStepNode P id → Settled (run P fns ord h).1.dag id) ∧
+    (∀ x n, (run P fns ord h).1.dag.find? x = some n →
+      (∀ ed ∈ P.dag.edges, ed.2.1 = x → IsStepNode P ed.1) → n.out = []) ∧
+    (∀ ed ∈ P.dag.edges, IsStepNode P ed.1 → ed.2.2 = Dep.and → statusIs (run P fns ord h).1.dag ed.1 St.unres →
+      statusIs (run P fns ord h).1.dag ed.2.1 St.unres) := by
+  have hinv := run_dag_inv P fns ord hP.wf h
+  have hset : ∀ id, IsStepNode P id → Settled (run P fns ord h).1.dag id := by
+    rintro id ⟨step, stage, hd, hid⟩
+    have := (completed_steps_stay_settled P fns ord hord hnd hP h hl hr step (hall step stage hd)).2 stage hd
+    rcases hid with rfl | ⟨o, ho, rfl⟩
+    · exact this.1
+    · exact this.2 o ho
+  refine ⟨(legal_history_never_panics P fns ord hord hnd hP h hl).2, hset, ?_, ?_⟩
+  · intro x n hn hdeps
+    refine no_outstanding_of_settled hinv.inv hn ?_
+    intro ed he hto
+    rw [hinv.edges] at he
+    exact hset _ (hdeps ed he hto)
+  · intro ed he hstep hand hun
+    have he' : ed ∈ (run P fns ord h).1.dag.edges := by rw [hinv.edges]; exact he
+    obtain ⟨n, hn⟩ := Graph.has_iff.1 (hinv.inv.edge_nodes ed he').2
+    exact ⟨n, hn, (settled_source hinv.inv he' (hset _ hstep) hn).2 hand hun⟩
+
 /-! non-vacuity: a concrete workflow on which the loop does produce its output and reports nothing else -/
 
 def demoOut : Item :=
@@ -68,5 +161,103 @@ def demoResult : Option (String × Val) :=
 example : (match demoResult with
     | some (id, v) => id == "success" && v == .map [("x", .str "n")]
     | none => false) = true := by decide
+
+/-! non-vacuity of (f)–(h): `SafeCex.PG` (step `a` with the stages `s` and `t`, `PG_wf2 : PG.WF2`); the step completes
+with its stage `t` without ever going through `s`.  The history is legal, so the theorems apply; and what they say is
+not trivial: the stage node of `s` IS a node, and it ends up unresolvable instead of waiting. -/
+
+open Arca.Model.SafeCex in
+def histPG : List Event := [.start .null, .stepComplete "a" "t" none false]
+
+open Arca.Model.SafeCex in
+theorem histPG_legal : LegalHistory PG fns0 id (LoopState.init PG) histPG := by
+  refine ⟨⟨PG_plain.noOutputResolved _, fun n hn => (PG_plain.fresh n hn).1⟩, ?_, trivial⟩
+  have hin : statusIs (react PG fns0 id (LoopState.init PG) (.start .null)).1.dag "input" St.resolved := by
+    rw [statusIs_iff]; decide +kernel
+  refine ⟨PG_declares_at, ?_, ?_, ?_, ?_⟩
+  · rw [statusIs_iff]; decide +kernel
+  · intro ed he _ _
+    simp [PG] at he
+    rcases he with rfl | rfl <;> exact hin
+  · intro ed he _ h2
+    simp [PG] at he
+    rcases he with rfl | rfl <;> cases h2
+  · intro oid v h; cases h
+
+open Arca.Model.SafeCex in
+theorem histPG_reports : ∀ e ∈ histPG, EventReports PG e := by
+  intro e he
+  simp [histPG] at he
+  rcases he with rfl | rfl
+  · trivial
+  · intro _; exact PG_outputsOf _ _
+
+open Arca.Model.SafeCex in
+example : StepSettled PG (run PG fns0 id histPG).1.dag "a" :=
+  (completed_steps_stay_settled PG fns0 id ordId_ok ordId_nodup PG_wf2 histPG histPG_legal histPG_reports "a"
+    ⟨"t", none, false, by simp [histPG]⟩).2
+
+open Arca.Model.SafeCex in
+example : (∀ x, IsStepNode PG x → Settled (run PG fns0 id histPG).1.dag x) :=
+  (all_steps_completed_nothing_waits_for_a_step PG fns0 id ordId_ok ordId_nodup PG_wf2 histPG histPG_legal
+    histPG_reports (fun step stage hd => by
+      obtain ⟨rfl, _⟩ := PG_declares hd
+      exact ⟨"t", none, false, by simp [histPG]⟩)).2.1
+
+-- the stage the step did not go through is a node of the graph and is unresolvable (not waiting) after the completion
+open Arca.Model.SafeCex in
+example : (run PG fns0 id histPG).1.dag.statusOf "steps.a.s" = some St.unres := by decide +kernel
+open Arca.Model.SafeCex in
+example : (run PG fns0 id histPG).1.dag.statusOf "steps.a.t" = some St.resolved := by decide +kernel
+-- before the completion it was waiting
+open Arca.Model.SafeCex in
+example : (run PG fns0 id [.start .null]).1.dag.statusOf "steps.a.s" = some St.waiting := by decide +kernel
+
+/-! an executable illustration of the promptness the repair buys (one of the F11 shapes): the only output of the workflow
+needs `$.steps.a.crashed.error`; step `a` SUCCEEDS.  At the completion callback of `a` the loop marks the `crashed` stage
+and its output impossible, the output node fails, and "no more outputs" is reported and the run cancelled in that very
+reaction — no other step (`b` never ends here) and no deadlock-detector retry is needed. -/
+
+def demoF : Prepared :=
+  { dag := { nodes := [⟨"input", .waiting, [], []⟩,
+                       ⟨"steps.a.outputs", .waiting, [("input", .and)], []⟩,
+                       ⟨"steps.a.outputs.success", .waiting, [("steps.a.outputs", .and)], []⟩,
+                       ⟨"steps.a.crashed", .waiting, [("input", .and)], []⟩,
+                       ⟨"steps.a.crashed.error", .waiting, [("steps.a.crashed", .and)], []⟩,
+                       ⟨"steps.b.outputs", .waiting, [("input", .and)], []⟩,
+                       ⟨"outputs.failed", .waiting, [("steps.a.crashed.error", .and)], []⟩],
+             edges := [("input", "steps.a.outputs", .and), ("steps.a.outputs", "steps.a.outputs.success", .and),
+                       ("input", "steps.a.crashed", .and), ("steps.a.crashed", "steps.a.crashed.error", .and),
+                       ("input", "steps.b.outputs", .and), ("steps.a.crashed.error", "outputs.failed", .and)],
+             ready := [] }
+    items := [("input", { kind := .input }),
+              ("steps.a.outputs", { kind := .stage, step := "a", stage := "outputs" }),
+              ("steps.a.outputs.success", { kind := .stageOutput, step := "a", stage := "outputs", output := "success" }),
+              ("steps.a.crashed", { kind := .stage, step := "a", stage := "crashed" }),
+              ("steps.a.crashed.error", { kind := .stageOutput, step := "a", stage := "crashed", output := "error" }),
+              ("steps.b.outputs", { kind := .stage, step := "b", stage := "outputs" }),
+              ("outputs.failed", { kind := .output, output := "failed",
+                                   data := some (.expr (.dot (.dot (.dot (.dot .root "steps") "a") "crashed") "error")) })]
+    stages := [("a", [("outputs", ["success"]), ("crashed", ["error"])]), ("b", [("outputs", [])])]
+    errCap := Arca.Gen.errCap }
+
+def demoFHist : List Event := [.start .null, .stepComplete "a" "outputs" (some ("success", .map [])) true]
+
+def hasAct (p : Action → Bool) (l : List Action) : Bool := l.any p
+
+/-- `demoF_prompt`: in the reaction to the completion of `a` alone -/
+example : hasAct Action.isNoMoreOutputs (run demoF (fun fn _ => .error (.unknownFn fn)) id demoFHist).2 = true := by
+  decide +kernel
+example : (run demoF (fun fn _ => .error (.unknownFn fn)) id demoFHist).1.cancelled = true := by decide +kernel
+example : (run demoF (fun fn _ => .error (.unknownFn fn)) id demoFHist).1.dag.statusOf "steps.a.crashed.error"
+    = some St.unres := by decide +kernel
+example : (run demoF (fun fn _ => .error (.unknownFn fn)) id demoFHist).1.dag.statusOf "outputs.failed"
+    = some St.unres := by decide +kernel
+-- the unrelated step `b` is still waiting: the run did not have to wait for it
+example : (run demoF (fun fn _ => .error (.unknownFn fn)) id demoFHist).1.dag.statusOf "steps.b.outputs"
+    = some St.waiting := by decide +kernel
+-- without the completion (a mere stage change: the behaviour before the repair) nothing is reported
+example : hasAct Action.isNoMoreOutputs (run demoF (fun fn _ => .error (.unknownFn fn)) id
+    [.start .null, .stageChange "a" (some "outputs") (some ("success", .map [])) true]).2 = false := by decide +kernel
 
 end Arca.Props.C01
